@@ -513,7 +513,7 @@ static Reg r_rhapi("rh_api", [](const Args& a) {
       // LONG_UNROLL: lon2 - lon1 is the longitude swept; without it the same direction reduced to [-180, 180]
       if (u && std::isfinite(lo) && std::isfinite(lon1)) { double la0, lo0, S0; R.GenDirect(lat1, lon1, azi, s12, M_ALL_DIR, la0, lo0, S0);
         if (!(std::fabs(lo0) <= 180)) fail("lon2 outside [-180, 180] without LONG_UNROLL");
-        if (!(std::fabs(std::remainder(lo - lo0, 360.0)) <= 4 * ulp(std::fabs(lo) + 360) && eqn(S, S0) && eqn(la, la0))) fail("LONG_UNROLL changes more than the representation of lon2: " + num(lo) + " vs " + num(lo0)); }
+        if (!(std::fabs(std::remainder(lo - lo0, 360.0)) <= 4 * ulp(std::fabs(lon1) + std::fabs(lo) + 360) && eqn(S, S0) && eqn(la, la0))) /* lon1 + lon2x is rounded at the magnitude of lon1 */ fail("LONG_UNROLL changes more than the representation of lon2: " + num(lo) + " vs " + num(lo0)); }
     }
   }
   emit(std::to_string(nbad));
@@ -663,7 +663,7 @@ static Reg r_rhdatanhee("rh_datanhee", [](const Args& a) {
 static double pw(Rng& r, int lo, int hi) { return std::pow(10.0, r.range(lo, hi)); }
 void gv::generate(const std::string& tier, uint64_t seed) {
   Rng r(seed * 9176 + 11);
-  long n = tier == "thorough" ? 6000 : 900;
+  long n = tier == "thorough" ? 15000 : 900;
   struct EF { double a, f; int modes; };   // modes: 1 series, 2 exact, 3 both
   std::vector<EF> ell = {{aW, fW, 3}, {aW, fW, 3}, {aW, 0, 3}, {6.4e6, 0.001, 3}, {6.4e6, -0.001, 3}, {6.4e6, 0.01, 3}, {6.4e6, -0.01, 3}, {6.4e6, 0.1, 2}, {6.4e6, -0.1, 2}, {1, 1 / 150.0, 3}, {6378137, -1 / 298.257223563, 3}};
   auto H = [](double x) { return hx(x); };
